@@ -8,7 +8,7 @@
    model (array ownership, byte order, array subclass) are covered by the implementation-twin
    correspondence of this property (harness/gens2.gen_c10). *)
 From HS Require Import Prelude Cov Map Spec Ops Spec2 Params AtFold MapProofs UpdateProofs HistoryProofs
-     LayoutProofs AccountProofs OpsProofs RebuildProofs CongProofs MultiRefine CongRefine.
+     LayoutProofs AccountProofs OpsProofs RebuildProofs CongProofs MultiRefine CongRefine PartialRefine.
 Open Scope Z_scope.
 
 Section C10.
@@ -106,6 +106,18 @@ Theorem C10_multi_map_operations_preserve_equality :
       abs (p_V P) (p_dv P) m1 = abs (p_V P) (p_dv P) m2.
 Proof. exact apply_operation_congruence. Qed.
 
+(* reading selected coverage pixels of content-equal maps (files): both rejected or both accepted with
+   content-equal results *)
+Theorem C10_partial_reads_preserve_equality :
+  forall (P : params) (m1 m2 : smap (p_V P)) (req : list Z),
+    wf P m1 -> wf P m2 -> abs (p_V P) (p_dv P) m1 = abs (p_V P) (p_dv P) m2 ->
+    match read_partial (p_V P) m1 req, read_partial (p_V P) m2 req with
+    | Some a, Some b => abs (p_V P) (p_dv P) a = abs (p_V P) (p_dv P) b
+    | None, None => True
+    | _, _ => False
+    end.
+Proof. exact read_partial_congruence. Qed.
+
 Print Assumptions C10_updates_on_equal_maps_give_equal_maps.
 Print Assumptions C10_every_update_history_preserves_equality.
 Print Assumptions C10_scalar_operators_preserve_equality.
@@ -116,4 +128,5 @@ Print Assumptions C10_upgrade_preserves_equality.
 Print Assumptions C10_weighted_degrade_preserves_equality.
 Print Assumptions C10_boolean_map_operators_preserve_equality.
 Print Assumptions C10_multi_map_operations_preserve_equality.
+Print Assumptions C10_partial_reads_preserve_equality.
 Print Assumptions C10_conversions_preserve_equality.
